@@ -18,7 +18,7 @@ Record optdef := mkOptDef {
   od_validq : str;             (* fmt %q of the valid values (from Go) *)
   od_suggested : list str;
   od_sfn : option nat;
-  od_setcalled : option bool;  (* SetCalled modifier *)
+  od_setcalled : option (bool * bool);  (* SetCalled modifier: (value, written before the GetEnv modifier) *)
   od_desc : str;
   od_argname : str;            (* ArgName modifier, "" = none *)
   od_defstr : str              (* DefaultStr as fmt renders the default (from Go) *)
@@ -164,14 +164,19 @@ Section WithEnv.
         end
     end.
 
+  (* modifiers run in the order they are written: SetCalled before GetEnv is overridden by a bound
+     variable, SetCalled after GetEnv overrides it *)
+  Definition apply_setcalled (sc : option (bool * bool)) (first : bool) (os : ostate) : ostate :=
+    match sc with
+    | Some (b, f) => if Bool.eqb f first then mkState (o_val os) b (o_used os) else os
+    | None => os
+    end.
+
   Definition initial_state (o : optdef) : ostate :=
     let sp := spec_of o in
-    let os0 := mkState (od_default o) false [] in
+    let os0 := apply_setcalled (od_setcalled o) true (mkState (od_default o) false []) in
     let os1 := env_state o sp os0 in
-    match od_setcalled o with
-    | Some b => mkState (o_val os1) b (o_used os1)
-    | None => os1
-    end.
+    apply_setcalled (od_setcalled o) false os1.
 
   (* slices and maps validate their bounds at definition time (a panic in Go) *)
   Definition bounds_ok (o : optdef) : bool :=
